@@ -3,6 +3,7 @@ From Coq Require Import List Bool String ZArith.
 Import ListNotations.
 Require Equiv.
 Require Import Stab Spec SpecProofs GF2 Act Gen_GateTable Gen_Simplify GenProofs_Simplify TableAut.
+Require Segs Gen_SimpSegs GenProofs_SimpSegs.
 
 (* decomposed(): every per-gate table of the simplifier, regenerated from the source, is the gate: unitary entries compose to
    the documented action with exact signs; measurement entries conjugate the measured observable onto +Z of the measured
@@ -35,3 +36,17 @@ Theorem C13_solver_complete : forall m eqs k, Forall (satisfies m k) eqs -> cons
 Proof. exact consistent_complete. Qed.
 Print Assumptions C13_simplifier_tables_match_gate_table. Print Assumptions C13_simplifier_unitary2_is_the_gate.
 Print Assumptions C13_affine_image_included. Print Assumptions C13_solver_complete.
+
+(* The simplifier's cutting of an instruction into pieces, regenerated from source, is the greedy cutting of Segs.v: the pieces
+   concatenate to the instruction's targets and no piece uses a qubit twice (classically controlled pairs included), so the
+   simultaneous basis changes emitted around a piece act on distinct qubits. *)
+Theorem C13_simplifier_cutting_is_the_model : GenProofs_SimpSegs.simpsegs_ok = true.
+Proof. exact GenProofs_SimpSegs.simplifier_cutting_is_the_model. Qed.
+Theorem C13_simplifier_pieces_1q :
+  forall ts, List.concat (Segs.segs1 ts [] []) = ts /\ Forall (fun seg => NoDup (Segs.qvals seg)) (Segs.segs1 ts [] []).
+Proof. exact Segs.simplifier_pieces_1q. Qed.
+Theorem C13_simplifier_pieces_2q :
+  forall ps, Forall Segs.pair_ok ps ->
+  List.concat (Segs.segs2 ps [] []) = ps /\ Forall (fun seg => NoDup (Segs.pvals seg)) (Segs.segs2 ps [] []).
+Proof. exact Segs.simplifier_pieces_2q. Qed.
+Print Assumptions C13_simplifier_cutting_is_the_model. Print Assumptions C13_simplifier_pieces_1q. Print Assumptions C13_simplifier_pieces_2q.
